@@ -12,6 +12,9 @@ var JSONScalars = []string{
 	`null`, `true`, `false`, `0`, `-0`, `1`, `-1`, `5`, `1.5`, `5.0`, `1e999`, `-1e999`, `1e-999`, `9007199254740993`, `9223372036854775808`, `1E5`,
 	`[]`, `{}`, `[[]]`, `[1]`, `["a"]`, `[null]`, `["a","b"]`, `[1,"a",2.5]`, `[{}]`, `{"left":"a"}`, `{"min":1,"max":2}`, `"NaN"`, `"Inf"`,
 	`{"left":"c","operator":"RANGE"}`, `{"left":"c","operator":"RANGE","right":"x"}`, `{"left":"c","operator":"LIKE"}`, `{"left":"c","operator":"IN","right":5}`, `{"operator":"NOT"}`, `{"left":["a","b"],"operator":"LIST"}`, `{"x":1}`, `{"left":5,"operator":"WILD"}`, `{"left":5,"operator":"REGEXP"}`, `{"left":"a*","operator":"LITERAL"}`, `{"left":1.5,"operator":"LITERAL"}`, `{"left":"a*","operator":"WILD"}`,
+	// patterns whose last character is a lone backslash, and escaped wildcards
+	// (the pattern translators walk these byte by byte)
+	`"b*\\"`, `"\\"`, `"\\*"`, `"a\\?b*"`, `{"left":"b?\\","operator":"WILD"}`,
 }
 
 // OperatorNames: the valid operator names plus near misses.
